@@ -18,6 +18,7 @@ RULE = ("plan = list of 0..10 dicts (keys a:int|None and b:str|None always prese
         "result is a ListOfDicts of AttributeDicts. Non-trivial: chain length ≥ 2, or a boundary argument (n = 0, index ≥ len "
         "or < 0, empty list). Distinct = plan hash.")
 CASES = {"quick": 2000, "thorough": 12000}
+FUZZ_RUNS = {"thorough": 20000}     # coverage-guided leg, 8 processes (vlib/fuzz.py)
 
 VA = [None, 0, 1, 2]
 VB = [None, "x", "y", "xy"]
